@@ -51,6 +51,8 @@ pub struct Expr {
     pub b: BigUint,
     pub k: KForm,
     pub f: FForm,
+    /// second stage `(a op b) op2 c`: operator, its index in the operator table, operand / shift amount
+    pub second: Option<(Op, usize, BigUint)>,
 }
 
 fn expand(w: &Words, salt: u8, bits: u32) -> BigUint {
@@ -118,7 +120,25 @@ pub fn gen_expr(w: &Words) -> Expr {
             c => operand(t, c as u16 * 4096 + 100, w[5], w, 2),
         }
     };
-    Expr { t, op, op_index, a, b, k: KFORMS[idx(w[8], KFORMS.len())], f: FFORMS[idx(w[9], FFORMS.len())] }
+    let mut e = Expr { t, op, op_index, a, b, k: KFORMS[idx(w[8], KFORMS.len())], f: FFORMS[idx(w[9], FFORMS.len())], second: None };
+    // chains: the result of a T -> T operator feeds a second operator
+    let t_to_t = !op.is_cmp() && !matches!(op, Op::Conv(_));
+    if t_to_t && w[7] % 4 == 1 {
+        let cands: Vec<(usize, Op)> = ops.iter().copied().enumerate().filter(|(_, o)| !matches!(o, Op::Conv(_))).collect();
+        let (i2, op2) = cands[idx(w[6], cands.len())];
+        let c = if op2.is_shift() {
+            BigUint::from(SHIFT_AMOUNTS[idx(w[5], SHIFT_AMOUNTS.len())])
+        } else {
+            operand(t, w[5], w[3], w, 3)
+        };
+        e.second = Some((op2, i2, c));
+        // forms that spell the operator out themselves are not used for chains
+        if matches!(e.k, KForm::ViaFn | KForm::ConstRef | KForm::Block) {
+            e.k = KForm::Plain;
+        }
+        e.f = FForm::Direct;
+    }
+    e
 }
 
 trait SatSub {
@@ -143,20 +163,39 @@ impl Expr {
         }
     }
     pub fn src(&self) -> String {
-        self.op.render(&self.t.lit(&self.a), &self.b_lit())
+        let first = self.op.render(&self.t.lit(&self.a), &self.b_lit());
+        match &self.second {
+            None => first,
+            Some((op2, _, c)) => {
+                let c = if op2.is_shift() { format!("{c}") } else { self.t.lit(c) };
+                op2.render(&format!("({first})"), &c)
+            }
+        }
     }
     pub fn rtype(&self) -> String {
-        result_type(self.t, self.op)
+        match &self.second {
+            None => result_type(self.t, self.op),
+            Some((op2, _, _)) => result_type(self.t, *op2),
+        }
+    }
+    /// big-integer model of the whole expression (triage only)
+    pub fn model(&self) -> Option<Vec<u8>> {
+        let r1 = model(self.t, self.op, &self.a, &self.b)?;
+        match &self.second {
+            None => Some(r1),
+            Some((op2, _, c)) => model(self.t, *op2, &BigUint::from_bytes_be(&r1), c),
+        }
     }
     pub fn shape(&self) -> String {
-        if self.op.is_shift() {
+        if self.op.is_shift() && self.second.is_none() {
             let s: u64 = (&self.b).try_into().unwrap_or(u64::MAX);
             let w = self.t.bits() as u64;
             return if s >= 64.max(w) { format!("amount>={}", 64.max(w)) } else if s >= w { format!("amount>={w}") } else { "amount<width".into() };
         }
-        match model(self.t, self.op, &self.a, &self.b) {
-            None => "model-aborts".into(),
-            Some(_) => "model-returns".into(),
+        let chain = if self.second.is_some() { "chain:" } else { "" };
+        match self.model() {
+            None => format!("{chain}model-aborts"),
+            Some(_) => format!("{chain}model-returns"),
         }
     }
     pub fn nontrivial(&self) -> bool {
@@ -168,7 +207,7 @@ impl Expr {
             let w = self.t.bits() as u64;
             return s == 0 || s == 1 || (s + 1 >= w && s <= w + 1) || (63..=65).contains(&s) || (255..=257).contains(&s) || s >= 1 << 32;
         }
-        match model(self.t, self.op, &self.a, &self.b) {
+        match self.model() {
             Some(bytes) if bytes.len() == self.t.bytes() => is_boundary(self.t, &BigUint::from_bytes_be(&bytes)),
             _ => false,
         }
@@ -240,16 +279,16 @@ fn all_logs(o: &Outcome) -> Vec<Vec<u8>> {
     }).collect()
 }
 
-pub fn run_time(e: &Expr) -> RunTime {
-    let Some(bc) = table(e.t) else { return RunTime::Unknown("operator table did not compile".into()) };
-    let mut data = (e.op_index as u64).to_be_bytes().to_vec();
-    data.extend(e.t.encode(&e.a));
-    if e.op.is_shift() {
-        data.extend(e.t.encode(&BigUint::zero()));
-        let s: u64 = (&e.b).try_into().unwrap_or(u64::MAX);
+fn run_table(t: T, op: Op, op_index: usize, a: &BigUint, b: &BigUint) -> RunTime {
+    let Some(bc) = table(t) else { return RunTime::Unknown("operator table did not compile".into()) };
+    let mut data = (op_index as u64).to_be_bytes().to_vec();
+    data.extend(t.encode(a));
+    if op.is_shift() {
+        data.extend(t.encode(&BigUint::zero()));
+        let s: u64 = b.try_into().unwrap_or(u64::MAX);
         data.extend(s.to_be_bytes());
     } else {
-        data.extend(e.t.encode(&e.b));
+        data.extend(t.encode(b));
         data.extend(0u64.to_be_bytes());
     }
     let o = exec::run_script(&bc, &data);
@@ -258,6 +297,14 @@ pub fn run_time(e: &Expr) -> RunTime {
         (End::Revert(c), None) => RunTime::Abort(format!("Revert({c})")),
         (End::Panic(p), None) => RunTime::Abort(format!("Panic({p})")),
         (e, l) => RunTime::Unknown(format!("{e:?} with log {l:?}")),
+    }
+}
+
+pub fn run_time(e: &Expr) -> RunTime {
+    let r1 = run_table(e.t, e.op, e.op_index, &e.a, &e.b);
+    match (&e.second, r1) {
+        (Some((op2, i2, c)), RunTime::Value(v)) => run_table(e.t, *op2, *i2, &BigUint::from_bytes_be(&v), c),
+        (_, r) => r,
     }
 }
 
@@ -514,7 +561,7 @@ fn mask(s: &str) -> String {
 
 fn fail(route: &str, e: &Expr, what: &str, detail: String, src: &str, extra: Value) -> Fail {
     let sig = format!("{route}:{}:{}:{}:{what}", e.t.name(), e.op.name(), e.shape());
-    let m = model(e.t, e.op, &e.a, &e.b).map(hex::encode);
+    let m = e.model().map(hex::encode);
     (
         sig,
         format!("`{}` ({}): {detail}", e.src(), e.t.name()),
@@ -780,7 +827,7 @@ pub fn eval_batch(batch: &[Words], rep: &Report) -> Result<BatchStats, Fail> {
             RunTime::Value(v) => {
                 st.r_values += 1;
                 // third voter (triage only)
-                match model(e.t, e.op, &e.a, &e.b) {
+                match e.model() {
                     Some(m) if m == v => rep.class("R:value(model agrees)"),
                     Some(_) => rep.class(&format!("R:value(model differs):{}:{}:{}", e.t.name(), e.op.name(), e.shape())),
                     None => rep.class(&format!("R:value(model aborts):{}:{}", e.t.name(), e.op.name())),
@@ -825,7 +872,7 @@ pub fn eval_batch(batch: &[Words], rep: &Report) -> Result<BatchStats, Fail> {
 pub fn run(ctx: &Ctx) {
     let mut ctx = ctx.clone();
     if std::env::var("VERIF_SHRINK").is_err() {
-        ctx.shrink_iters = 150;
+        ctx.shrink_iters = 40;
     }
     let ctx = &ctx;
     let rep = Report::new(
@@ -843,7 +890,8 @@ pub fn run(ctx: &Ctx) {
     rep.assume("at most 2 run-time-aborting expressions per batch are compiled singly (cost); all returning expressions are checked");
     rep.assume("a compilation that does not terminate within 120 s ends the check as inconclusive (exit 2), not as a violation");
     crate::watch::spawn_watchdog("C06", 120);
-    let cases = ctx.cases(250, 5_000);
+    corpus_check(&rep);
+    let cases = ctx.cases(150, 4_000);
     let explore = std::env::var("C06_EXPLORE").is_ok();
     let out = run_prop(ctx, 6, cases, batch_strategy, |batch| match eval_batch(batch, &rep) {
         Ok(st) => {
@@ -854,7 +902,10 @@ pub fn run(ctx: &Ctx) {
                 rep.class(&format!("type:{}", e.t.name()));
                 rep.class(&format!("op:{}", e.op.name()));
                 if e.nontrivial() {
-                    let h = hash64(format!("{:?}", (e.t, e.op, &e.a, &e.b, e.k, e.f)).as_bytes());
+                    let h = hash64(format!("{:?}", (e.t, e.op, &e.a, &e.b, e.k, e.f, &e.second)).as_bytes());
+                if e.second.is_some() {
+                    rep.class("shape:chain-of-two-operators");
+                }
                     rep.nontrivial(h);
                     rep.sample_hashed(h, || e.render());
                 }
@@ -884,12 +935,42 @@ pub fn run(ctx: &Ctx) {
     rep.finish();
 }
 
+/// regression inputs of confirmed (and repaired) findings: corpus/C06/*.json = source + expected logs or "compile-error"
+fn corpus_check(rep: &Report) {
+    let dir = verif_root().join("corpus/C06");
+    for f in walk_files(&dir, ".json") {
+        let Some(v) = read_to_string_lossy(&f).and_then(|t| serde_json::from_str::<Value>(&t).ok()) else { continue };
+        let Some(src) = v["src"].as_str() else { continue };
+        let name = f.file_name().map(|x| x.to_string_lossy().to_string()).unwrap_or_default();
+        rep.class("corpus_cases");
+        let mut problems = vec![];
+        for opt in [OptLevel::Opt0, OptLevel::Opt1] {
+            match (build(src, opt), &v["expect"]) {
+                (Built::Declined(_), Value::String(s)) if s == "compile-error" => {}
+                (Built::Code(bc), Value::Object(o)) => {
+                    let want: Vec<String> = o.get("logs").and_then(|l| l.as_array()).map(|a| a.iter().filter_map(|x| x.as_str().map(|s| s.to_string())).collect()).unwrap_or_default();
+                    let got: Vec<String> = all_logs(&exec::run_script(&bc, &[])).iter().map(hex::encode).collect();
+                    if got != want {
+                        problems.push(format!("logs {:?}, expected {:?}", got, want));
+                    }
+                }
+                (Built::Code(_), _) => problems.push("compiles, but a compile error is expected".into()),
+                (Built::Declined(f), _) => problems.push(format!("does not compile: {:?}", f.errors.first())),
+                (Built::Crashed(m), _) => problems.push(m),
+            }
+        }
+        if !problems.is_empty() {
+            rep.violation(Violation { signature: format!("corpus:{name}"), summary: format!("regression input {name}: {}", problems.join("; ")), replay: json!({"corpus_file": f.display().to_string(), "src": src, "problems": problems}) });
+        }
+    }
+}
+
 pub fn dump(args: &[String]) {
     let seed: u64 = args.first().and_then(|s| s.parse().ok()).unwrap_or(1);
     let batch = gen_one(seed, &batch_strategy());
     let exprs: Vec<Expr> = batch.iter().map(gen_expr).collect();
     for e in &exprs {
-        println!("// {} : {} -> {:?} (model {:?})", e.t.name(), e.src(), run_time(e), model(e.t, e.op, &e.a, &e.b).map(hex::encode));
+        println!("// {} : {} -> {:?} (model {:?})", e.t.name(), e.src(), run_time(e), e.model().map(hex::encode));
     }
     let items: Vec<(usize, &Expr)> = exprs.iter().enumerate().collect();
     println!("{}", k_program(&items));
